@@ -4,6 +4,7 @@ import (
 	"fmt"
 	"reflect"
 	"strings"
+	"time"
 
 	vocab "github.com/go-ap/activitypub"
 
@@ -329,6 +330,147 @@ func runView(c *Ctx, vc viewCase, idx int) {
 	c.Count("write-throughs", int64(tT.NumField()))
 }
 
+// item types defined outside the package with the layout of a vocabulary struct (what an application does to add methods):
+// the helpers fall back to reflection for them. Two families, so that each order of calls meets a type the process has not seen.
+type (
+	foreignNoteA  vocab.Object
+	foreignNoteB  vocab.Object
+	foreignActorA vocab.Actor
+	foreignActorB vocab.Actor
+	foreignColA   vocab.OrderedCollection
+	foreignColB   vocab.OrderedCollection
+)
+
+func (f foreignNoteA) GetID() vocab.ID                        { return f.ID }
+func (f foreignNoteA) GetLink() vocab.IRI                     { return f.ID }
+func (f foreignNoteA) GetType() vocab.ActivityVocabularyType  { return f.Type }
+func (f foreignNoteA) IsLink() bool                           { return false }
+func (f foreignNoteA) IsObject() bool                         { return true }
+func (f foreignNoteA) IsCollection() bool                     { return false }
+func (f foreignNoteB) GetID() vocab.ID                        { return f.ID }
+func (f foreignNoteB) GetLink() vocab.IRI                     { return f.ID }
+func (f foreignNoteB) GetType() vocab.ActivityVocabularyType  { return f.Type }
+func (f foreignNoteB) IsLink() bool                           { return false }
+func (f foreignNoteB) IsObject() bool                         { return true }
+func (f foreignNoteB) IsCollection() bool                     { return false }
+func (f foreignActorA) GetID() vocab.ID                       { return f.ID }
+func (f foreignActorA) GetLink() vocab.IRI                    { return f.ID }
+func (f foreignActorA) GetType() vocab.ActivityVocabularyType { return f.Type }
+func (f foreignActorA) IsLink() bool                          { return false }
+func (f foreignActorA) IsObject() bool                        { return true }
+func (f foreignActorA) IsCollection() bool                    { return false }
+func (f foreignActorB) GetID() vocab.ID                       { return f.ID }
+func (f foreignActorB) GetLink() vocab.IRI                    { return f.ID }
+func (f foreignActorB) GetType() vocab.ActivityVocabularyType { return f.Type }
+func (f foreignActorB) IsLink() bool                          { return false }
+func (f foreignActorB) IsObject() bool                        { return true }
+func (f foreignActorB) IsCollection() bool                    { return false }
+func (f foreignColA) GetID() vocab.ID                         { return f.ID }
+func (f foreignColA) GetLink() vocab.IRI                      { return f.ID }
+func (f foreignColA) GetType() vocab.ActivityVocabularyType   { return f.Type }
+func (f foreignColA) IsLink() bool                            { return false }
+func (f foreignColA) IsObject() bool                          { return true }
+func (f foreignColA) IsCollection() bool                      { return true }
+func (f foreignColB) GetID() vocab.ID                         { return f.ID }
+func (f foreignColB) GetLink() vocab.IRI                      { return f.ID }
+func (f foreignColB) GetType() vocab.ActivityVocabularyType   { return f.Type }
+func (f foreignColB) IsLink() bool                            { return false }
+func (f foreignColB) IsObject() bool                          { return true }
+func (f foreignColB) IsCollection() bool                      { return true }
+
+type foreignCase struct {
+	Name    string
+	New     func() any // pointer to a populated value
+	Reverse bool       // helpers tried last-to-first
+}
+
+var foreignCases = []foreignCase{
+	{"foreignNote (an Object)", func() any {
+		return &foreignNoteA{ID: "https://example.com/foreign/1", Type: vocab.NoteType, Name: vocab.NaturalLanguageValues{{Ref: vocab.NilLangRef, Value: vocab.Content("foreign")}}, Published: time.Date(2020, 1, 2, 3, 4, 5, 0, time.UTC)}
+	}, false},
+	{"foreignNote (an Object)", func() any {
+		return &foreignNoteB{ID: "https://example.com/foreign/1", Type: vocab.NoteType, Name: vocab.NaturalLanguageValues{{Ref: vocab.NilLangRef, Value: vocab.Content("foreign")}}, Published: time.Date(2020, 1, 2, 3, 4, 5, 0, time.UTC)}
+	}, true},
+	{"foreignActor (an Actor)", func() any {
+		return &foreignActorA{ID: "https://example.com/foreign/2", Type: vocab.PersonType, Inbox: vocab.IRI("https://example.com/foreign/2/inbox"), PreferredUsername: vocab.NaturalLanguageValues{{Ref: vocab.NilLangRef, Value: vocab.Content("bot")}}}
+	}, false},
+	{"foreignActor (an Actor)", func() any {
+		return &foreignActorB{ID: "https://example.com/foreign/2", Type: vocab.PersonType, Inbox: vocab.IRI("https://example.com/foreign/2/inbox"), PreferredUsername: vocab.NaturalLanguageValues{{Ref: vocab.NilLangRef, Value: vocab.Content("bot")}}}
+	}, true},
+	{"foreignCol (an OrderedCollection)", func() any {
+		return &foreignColA{ID: "https://example.com/foreign/3", Type: vocab.OrderedCollectionType, TotalItems: 1, OrderedItems: vocab.ItemCollection{vocab.IRI("https://example.com/foreign/3/1")}}
+	}, false},
+	{"foreignCol (an OrderedCollection)", func() any {
+		return &foreignColB{ID: "https://example.com/foreign/3", Type: vocab.OrderedCollectionType, TotalItems: 1, OrderedItems: vocab.ItemCollection{vocab.IRI("https://example.com/foreign/3/1")}}
+	}, true},
+}
+
+// runForeign: every helper, in the given order, three rounds, on pointer and value forms of a foreign type. A helper may refuse;
+// what it hands out must be laid out like (a prefix of) the source and read the same on the fields the two declare.
+func runForeign(c *Ctx, fc foreignCase) {
+	helpers := append([]viewHelper{}, allViewHelpers...)
+	if fc.Reverse {
+		for i, j := 0, len(helpers)-1; i < j; i, j = i+1, j-1 {
+			helpers[i], helpers[j] = helpers[j], helpers[i]
+		}
+	}
+	for round := 0; round < 3; round++ {
+		for _, h := range helpers {
+			for _, form := range []string{"ptr", "val"} {
+				for _, via := range []string{"To", "On"} {
+					src := fc.New()
+					srcPtr := reflect.ValueOf(src)
+					item := src.(vocab.Item)
+					if form == "val" {
+						item = srcPtr.Elem().Interface().(vocab.Item)
+					}
+					label := fmt.Sprintf("%s%s(%s %s), round %d, helpers %s", via, h.Name, form, fc.Name, round, map[bool]string{false: "first to last", true: "last to first"}[fc.Reverse])
+					var view any
+					var err error
+					invoked := false
+					c.Pending("convert " + via + h.Name + "(foreign) :: " + label)
+					if c.Guard(via+h.Name, func() {
+						if via == "To" {
+							view, err = h.To(item)
+							invoked = err == nil
+						} else {
+							err = h.On(item, func(p any) { view = p; invoked = true })
+						}
+					}) {
+						continue
+					}
+					c.Eval(1)
+					c.Count("foreign-conversions", 1)
+					if err != nil || !invoked {
+						c.Count("foreign-refused", 1)
+						continue
+					}
+					vv := reflect.ValueOf(view)
+					if !vv.IsValid() || vv.Kind() != reflect.Pointer || vv.IsNil() {
+						continue
+					}
+					c.Count("foreign-accepted", 1)
+					sT, tT := srcPtr.Elem().Type(), vv.Elem().Type()
+					if cls, detail := layoutIssue(sT, tT); cls != "" {
+						c.Fail(fmt.Sprintf("view|%s%s|foreign->%s|layout|%s", via, h.Name, tT.Name(), cls), fmt.Sprintf("%s presents a value defined outside the package as a %s although the layouts are not compatible: %s (the conversion should have been refused)", label, tT.Name(), detail), map[string]any{"case": label})
+						continue
+					}
+					srcV := srcPtr.Elem()
+					for i := 0; i < tT.NumField(); i++ {
+						if !tT.Field(i).IsExported() {
+							continue
+						}
+						want, got := vmodel.Canon(srcV.Field(i).Interface(), vmodel.Exact), vmodel.Canon(vv.Elem().Field(i).Interface(), vmodel.Exact)
+						if !want.Equal(got) {
+							c.Fail(fmt.Sprintf("view|%s%s|foreign->%s|read|%s", via, h.Name, tT.Name(), tT.Field(i).Name), fmt.Sprintf("%s: field %s reads %s through the view, the original holds %s", label, tT.Field(i).Name, clipS(got.String(), 120), clipS(want.String(), 120)), map[string]any{"case": label})
+						}
+					}
+				}
+			}
+		}
+	}
+}
+
 func init() {
 	Register(&Prop{
 		ID: "C08",
@@ -349,6 +491,11 @@ func init() {
 						c.Sample(map[string]any{"conversion": vc.String()})
 					}
 					runView(c, vc, idx)
+				}},
+				{Name: "foreign-types", N: len(foreignCases), Exhaustive: true, Run: func(c *Ctx, idx int) {
+					fc := foreignCases[idx]
+					c.Distinct(fmt.Sprintf("foreign|%s|reverse=%v", fc.Name, fc.Reverse), true)
+					runForeign(c, fc)
 				}},
 			}
 		},
